@@ -41,6 +41,8 @@ def shards(tier, seed):
             ret += [{'name': f'{k}-{i}', 'kind': k, 'part': i, 'nparts': 3} for i in range(3)]
         else:
             ret.append({'name': k, 'kind': k, 'part': 0, 'nparts': 1})
+    if tier == 'thorough':
+        ret.append({'name': 'repo-tests', 'kind': 'repo-tests', 'part': 0, 'nparts': 1, 'timeout_s': 3600})
     return ret
 
 
@@ -981,3 +983,6 @@ def run(ctx, shard):
         run_compose(D)
     elif kind == 'drivers':
         run_drivers(D)
+    elif kind == 'repo-tests':
+        from vmon.repotests import run_repo_tests
+        run_repo_tests(ctx, ['test_manifold.py', 'test_manifold_ABk.py'])
